@@ -150,19 +150,37 @@ func (w *Walker) Walk(
 
 	select {
 	case <-done:
-		return w.completions, nil
+		return w.snapshotCompletions(), nil
 	case <-ctx.Done():
 		logger.Debugf(
 			"context cancelled, cancelling all workers",
 		)
 		w.cancelAll()
 
-		if w.failFastTriggered {
-			return w.completions, nil
+		// NOTE: Node routines may still be running (and recording completions) at this point,
+		// so the caller gets a copy taken under the mutex instead of the live map.
+		completions := w.snapshotCompletions()
+		w.doneMutex.Lock()
+		failFastTriggered := w.failFastTriggered
+		w.doneMutex.Unlock()
+		if failFastTriggered {
+			return completions, nil
 		} else {
-			return w.completions, ctx.Err()
+			return completions, ctx.Err()
 		}
 	}
+}
+
+// snapshotCompletions returns a copy of the completions recorded so far.
+func (w *Walker) snapshotCompletions() CompletionMap {
+	w.doneMutex.Lock()
+	defer w.doneMutex.Unlock()
+
+	snapshot := make(CompletionMap, len(w.completions))
+	for nodeLabel, completion := range w.completions {
+		snapshot[nodeLabel] = completion
+	}
+	return snapshot
 }
 
 // cancelNode cancels a target if it is present in the graph (not idempotent!)
